@@ -310,6 +310,13 @@ theorem finalSizePMF_sums_to_one (m : SIR) (hm : GoodSIR m) (s0 i0 : Nat) :
     simp
   · rw [hsplit]; exact hdead
 
+/-- **finalSizePMF_nonneg.**  Every entry of the final-size vector is non-negative: with `finalSizePMF_sums_to_one` it is a
+probability mass function. -/
+theorem finalSizePMF_nonneg (m : SIR) (hm : GoodSIR m) (s0 i0 : Nat) : ∀ p ∈ finalSizePMF m s0 i0, 0 ≤ p := by
+  intro p hp
+  rw [finalSizePMF, List.mem_reverse] at hp
+  exact finalRun_nonneg m hm s0 i0 p hp
+
 /-! ### non-vacuity -/
 
 /-- the hypotheses of the final-size theorem are satisfiable, and the law is not trivial:
